@@ -37,6 +37,19 @@ import (
 	"google.golang.org/protobuf/proto"
 )
 
+type vnDesc struct {
+	Head VB  `json:"head"`
+	Unit VB  `json:"unit"`
+	N    int `json:"n"`
+	Tail VB  `json:"tail"`
+}
+
+func (d vnDesc) Bytes() []byte {
+	out := append([]byte(nil), d.Head.Bytes()...)
+	out = append(out, bytes.Repeat(d.Unit.Bytes(), d.N)...)
+	return append(out, d.Tail.Bytes()...)
+}
+
 type vnCase struct {
 	O struct {
 		Op  string          `json:"op"`
@@ -51,7 +64,45 @@ type vnCase struct {
 		N   int    `json:"n"`
 		At  string `json:"at"`
 		Why string `json:"why"`
+		Pb  vnDesc `json:"pb"` // bodycount: expected bytes as head + unit repeated n times + tail
 	} `json:"res"`
+}
+
+// vnBodyCount: the block response carrying one block (hash 01..20, no header) whose body has n one-byte extrinsics.
+func vnBodyCount(raw json.RawMessage) (m *messages.BlockResponseMessage, n int, fill byte) {
+	var v struct{ N, Fill int }
+	if err := json.Unmarshal(raw, &v); err != nil {
+		panic("VERIF-INFRA bodycount value")
+	}
+	var h common.Hash
+	for i := range h {
+		h[i] = byte(i + 1)
+	}
+	bd := &types.BlockData{Hash: h}
+	if v.N > 0 {
+		exts := make([]types.Extrinsic, v.N)
+		for i := range exts {
+			exts[i] = types.Extrinsic{byte(v.Fill)}
+		}
+		bd.Body = types.NewBody(exts)
+	}
+	return &messages.BlockResponseMessage{BlockData: []*types.BlockData{bd}}, v.N, byte(v.Fill)
+}
+
+func vnBodyCountOf(m *messages.BlockResponseMessage, fill byte) string {
+	if m == nil || len(m.BlockData) != 1 || m.BlockData[0] == nil {
+		return "not one block"
+	}
+	b := m.BlockData[0].Body
+	if b == nil {
+		return "0 extrinsics"
+	}
+	for _, e := range *b {
+		if len(e) != 1 || e[0] != fill {
+			return fmt.Sprintf("%d extrinsics, one of them %x", len(*b), []byte(e))
+		}
+	}
+	return fmt.Sprintf("%d extrinsics", len(*b))
 }
 
 func vnList(raw json.RawMessage) []json.RawMessage {
@@ -402,6 +453,24 @@ func TestVerifNetMsgEnc(t *testing.T) {
 					} else if back.String() != m.String() || back.(*BlockAnnounceMessage).BestBlock != m.BestBlock {
 						fail("decodeBlockAnnounceMessage", m.String(), back.String(), "C14/announce/decode-value")
 					}
+				case "bodycount":
+					res.Case("bodycount", string(c.O.V))
+					m, n, fill := vnBodyCount(c.O.V)
+					want := c.Res.Pb.Bytes()
+					sig := fmt.Sprintf("C14/bodycount/%d", n)
+					enc, err := m.Encode()
+					enc = vnPbNorm("blockresponse", enc)
+					res.Cmp()
+					if err != nil || !bytes.Equal(enc, want) {
+						fail("BlockResponseMessage.Encode", fmt.Sprintf("%s... (%d bytes)", vHex(want[:40]), len(want)), fmt.Sprintf("%s... (%d bytes) %v", vHex(enc[:min(len(enc), 40)]), len(enc), err), sig+"/blockresponse/encode")
+					}
+					back := new(messages.BlockResponseMessage)
+					res.Cmp()
+					if err := back.Decode(want); err != nil {
+						fail("BlockResponseMessage.Decode", fmt.Sprintf("%d extrinsics", n), "error: "+err.Error(), sig+"/blockresponse/decode-error")
+					} else if got := vnBodyCountOf(back, fill); got != fmt.Sprintf("%d extrinsics", n) {
+						fail("BlockResponseMessage.Decode", fmt.Sprintf("%d extrinsics", n), got, sig+"/blockresponse/decode-value")
+					}
 				case "blockrequest":
 					res.Case("blockrequest", string(c.O.V))
 					m := vnRequest(c.O.V, false)
@@ -539,11 +608,23 @@ func TestVerifNetMsgDec(t *testing.T) {
 				t.Fatalf("VERIF-INFRA case json: %v", err)
 			}
 			d, ok := decs[c.O.Ty]
+			bodyCount := c.O.Ty == "bodycount" && c.O.Op == "dec"
+			if bodyCount { // a valid block response whose extrinsic count sits on a compact-mode boundary
+				d, ok = decs["blockresponse"], true
+			}
 			if c.O.Op != "dec" || !ok {
 				continue
 			}
 			prefix := json.RawMessage("[" + string(raw) + "]")
 			b := c.O.B.Bytes()
+			if bodyCount {
+				b = c.Res.Pb.Bytes()
+				c.Res.N = len(b)
+				c.Res.Enc = nil
+				var v struct{ N int }
+				_ = json.Unmarshal(c.O.V, &v)
+				c.O.Ty = fmt.Sprintf("bodycount/%d", v.N)
+			}
 			key := ""
 			if c.Res.Ok || c.Res.Why != "short" {
 				key = c.O.Ty + vHex(b)
@@ -569,7 +650,7 @@ func TestVerifNetMsgDec(t *testing.T) {
 				fail("decode", spec, pm, "C33/panic/"+where)
 				continue
 			}
-			isPb := c.O.Ty == "blockrequest" || c.O.Ty == "blockresponse"
+			isPb := c.O.Ty == "blockrequest" || c.O.Ty == "blockresponse" || bodyCount
 			budget := vnBudget(len(b))
 			if isPb {
 				budget += 1 << 20
@@ -597,7 +678,12 @@ func TestVerifNetMsgDec(t *testing.T) {
 			want := b[:c.Res.N]
 			if isPb { // protobuf: unknown fields and repeated scalars are dropped; the canonical encoding of the value
 				want = c.Res.Enc.Bytes()
-				re = vnPbNorm(c.O.Ty, re)
+				if bodyCount {
+					want = b
+					re = vnPbNorm("blockresponse", re)
+				} else {
+					re = vnPbNorm(c.O.Ty, re)
+				}
 			}
 			if err != nil || !bytes.Equal(re, want) {
 				fail("re-encode", vHex(want), vHex(re)+fmt.Sprint(err), "C33/"+c.O.Ty+"/reencode")
